@@ -4,7 +4,7 @@
     knot i, [xs_at] is XsCalculator::operator[] (the table value at a knot). *)
 From Coq Require Import Reals ZArith List.
 From Celer Require Import Base.Num Base.NumR C18.Algorithms C18.Grids C18.GridProofs C14.Calc
-  C14.XsProofs C14.RangeProofs C14.LossProofs C14.MscProofs C14.LossWitness.
+  C14.XsProofs C14.RangeProofs C14.LossProofs C14.MscProofs C14.LossWitness C14.LossExample C18.GridFlocq.
 Import ListNotations.
 Local Open Scope R_scope.
 
@@ -159,3 +159,16 @@ Theorem C14_find_bin_rounded_in_range : forall (rnd : R -> R) (u : R),
   (0 <= bin)%Z /\ (bin + 1 < size)%Z.
 Proof. exact rfind_in_range. Qed.
 Print Assumptions C14_find_bin_rounded_in_range.
+
+(** ... and for IEEE-754 binary64 itself: [rnd64] is Flocq's round-to-nearest-even
+    onto the binary64 format (FLT_exp (-1074) 53), i.e. the value every
+    non-overflowing binary64 -, / returns; [rfind rnd64] is UniformGrid::find
+    (with from_bounds' delta) evaluated with those roundings.  Holds for every
+    grid of 2 .. 2^52-1 points whose spacing is not subnormal. *)
+Theorem C14_uniform_find_binary64_in_range : forall front back size v,
+  (2 <= size < 4503599627370496)%Z -> front <= v < back ->
+  Raux.bpow Zaux.radix2 (-1022) <= rnd64 (back - front) / IZR (size - 1) ->
+  let bin := rfind rnd64 front back size v in
+  (0 <= bin)%Z /\ (bin + 1 < size)%Z.
+Proof. exact find_bin_float_in_range. Qed.
+Print Assumptions C14_uniform_find_binary64_in_range.
